@@ -348,7 +348,7 @@ M('C07', 'git-status-reset', PP, '    if "\\n" in lines[-1] and (">"*7) in lines
 M('C07', 'external-status-always-zero', PP, '        status = p.returncode\n        output = output.decode(\'utf8\')\n        # normalize newlines', '        status = 0\n        output = output.decode(\'utf8\')\n        # normalize newlines', 'R07.2')
 M('C07', 'deleted-marker-not-marker-shaped', STR, '["<<<<<<< REMOTE CELL DELETED >>>>>>>\\n"]', '["(cell deleted on remote)\\n"]', 'R07.3')
 M('C07', 'builtin-adds-explanatory-line', PP, '    sep2 = "%s\\n" % (sep2,)\n    lines.append(sep2)', '    sep2 = "%s\\n" % (sep2,)\n    lines.append("both sides changed these lines\\n")\n    lines.append(sep2)', 'R07.3')
-M('C07', 'cell-marker-plain-text', STR, '    cells.append(cell_marker("%s" % (m1,)))', '    cells.append(cell_marker("or"))', 'R07.3')
+M('C07', 'cell-marker-plain-text', STR, '    cells.append(cell_marker("%s" % (m1,), with_id))', '    cells.append(cell_marker("or", with_id))', 'R07.3')
 M('C07', 'transient-guard-dropped', MG, '                if p0[0].op == DiffOp.REMOVERANGE and is_transient:', '                if p0[0].op == DiffOp.REMOVERANGE:', 'R07.4')
 M('C07', 'dict-removal-wins', MG, '            elif ld.op == DiffOp.REMOVE and is_diff_all_transients([rd], path, transients):', '            elif ld.op == DiffOp.REMOVE:', 'R07.4')
 T('C07', 'twin-bool-status', STR, '        conflict = status != 0\n', '        conflict = bool(status)\n')
